@@ -291,6 +291,8 @@ func (d *Driver) Exec(op *Op) {
 		d.IndexGC(op)
 	case "pgc":
 		d.PrimaryGC(op)
+	case "sleep":
+		simrt.Sleep(int64(op.A) * 1000)
 	case "sizes":
 		d.St.StorageSize()
 		d.St.IndexStorageSize()
@@ -514,6 +516,8 @@ func (d *Driver) PrimaryGC(op *Op) {
 	d.cprobe("primary-gc")
 	if cd != nil && cd.hit {
 		d.cprobe("primary-gc-interrupted")
+	} else if err == nil && d.Ledger != nil && !d.Ledger.concurrent {
+		d.checkBatchesApplied("after a complete primary GC cycle")
 	}
 }
 
@@ -578,6 +582,7 @@ func runSeq(p *Plan, tape *simrt.Tape, opt RunOpt) *RunOut {
 	d.FsckOn = p.x("fsck", 0) == 1
 	if p.x("ledger", 0) == 1 {
 		d.Ledger = newLedger()
+		d.Ledger.pmax = uint64(p.Cfg.PrimaryFile)
 		d.Ledger.installHook(fs)
 	}
 	w, res := world(p, tape, fs, opt, nil, func() {
